@@ -1,0 +1,16 @@
+//! Verification hook (only compiled with `--cfg octo_squirrel_verif`): a per-thread override of the
+//! wall clock read by `aead_2022::now()` and `vmess::now()`, so that both sides of the
+//! 30 s / 120 s freshness boundaries can be probed exactly and without sleeping.
+use std::cell::Cell;
+
+thread_local! {
+    static NOW: Cell<Option<i64>> = const { Cell::new(None) };
+}
+
+pub fn set(now: Option<i64>) {
+    NOW.with(|c| c.set(now));
+}
+
+pub fn get() -> Option<i64> {
+    NOW.with(|c| c.get())
+}
